@@ -251,7 +251,15 @@ fn w_roundtrip(ctx: &mut Ctx) {
                 if let (Ok(r1), Ok(r2)) = (r1, r2) {
                     ctx.eval(1);
                     let (v1, v2) = (verdict_class(r1.status), verdict_class(r2.status));
-                    if !edited_after {
+                    // data with entries beyond 1e15 (the extreme finite values planted above) are kept for the
+                    // round-trip comparison of the DATA; what a solve makes of them is numerically arbitrary and
+                    // flips with the last-bit differences of a scale/unscale round trip
+                    let extreme = p.b.iter().chain(&p.q).any(|v| v.abs() > 1e15 && v.abs() < 1e19);
+                    let extreme = extreme || p.b.iter().any(|v| *v < -1e15) || p.q.iter().any(|v| v.abs() > 1e15);
+                    if extreme {
+                        ctx.bump("loaded_vs_original_solves_not_compared_(extreme_data)");
+                    }
+                    if !edited_after && !extreme {
                         if v1 != '-' && v2 != '-' && v1 != v2 {
                             bad("loaded_solve_verdict", json!({"original": status_name(r1.status), "loaded": status_name(r2.status)}));
                         } else if r1.status == SolverStatus::Solved && r2.status == SolverStatus::Solved {
